@@ -100,7 +100,7 @@ def run(tier, rep):
         for n in (2, 3, 4):
             body = bytes([0xFE, 0xC0 | (sub >> 7), (sub & 0x7F) << 1, rnd.randrange(256)])[:n]
             add(body, ident=f"4076_{sub:03d}", kind=f"short{n}")
-    for pl in stream_corpus.framelike_payloads(rnd) + stream_corpus.special_int_payloads(rnd):
+    for pl in stream_corpus.framelike_payloads(rnd) + stream_corpus.special_int_payloads(rnd) + stream_corpus.texty_payloads(bundle, rnd, 30):
         add(pl, ident="special", kind="special")
     # structure-aware mutations
     cases = gen_messages.corpus(bundle, "c04", per_ident=1 if quick else 3)
